@@ -90,6 +90,50 @@ Lemma is_name_char_iff : forall b,
   (65 <= b2n b <= 90 \/ 97 <= b2n b <= 122 \/ 48 <= b2n b <= 57 \/ b2n b = 95 \/ b2n b = 46 \/ b2n b = 45 \/ b2n b = 47)%N.
 Proof. intros b; destruct b; vm_compute; split; intros H; try discriminate; try reflexivity; intuition discriminate. Qed.
 
+(* ---------- the hand-written variant (the #else branches) against the same sets *)
+Lemma isalpha_is_letter : forall b, isalpha b = is_letter b.
+Proof. intros b; destruct b; vm_compute; reflexivity. Qed.
+Lemma nr_name_char_spec : forall b, nr_name_char b = is_name_char b.
+Proof. intros b; destruct b; vm_compute; reflexivity. Qed.
+Lemma ascii_no_nul : forall b, Byte.eqb b x00 = false -> (b2n b <=? 127)%N = is_ascii_char b.
+Proof. intros b; destruct b; vm_compute; intros H; first [reflexivity | discriminate H]. Qed.
+
+Lemma validate_name_nr_spec : forall s, s <> [] -> validate_name_nr s = Some (spec_name_valid s).
+Proof.
+  intros [|c t] H; [contradiction|]. unfold validate_name_nr, kNrNameMaxSize. cbn [length spec_name_valid].
+  rewrite isalpha_is_letter, (forallb_ext' _ _ t nr_name_char_spec).
+  destruct (Nat.ltb 255 (S (length t))) eqn:L.
+  - apply Nat.ltb_lt in L. assert (E : Nat.leb (length t) 254 = false) by (apply Nat.leb_gt; lia).
+    rewrite E, andb_false_r. reflexivity.
+  - apply Nat.ltb_ge in L. assert (E : Nat.leb (length t) 254 = true) by (apply Nat.leb_le; lia).
+    rewrite E, andb_true_r. reflexivity.
+Qed.
+Lemma validate_name_nr_empty : validate_name_nr [] = None.
+Proof. reflexivity. Qed.
+
+Lemma validate_unit_nr_spec : forall s, has_nul s = false -> validate_unit_nr s = spec_unit_valid s.
+Proof.
+  intros s H. unfold validate_unit_nr, spec_unit_valid, kNrUnitMaxSize.
+  assert (E : forallb (fun b => (b2n b <=? 127)%N) s = forallb is_ascii_char s).
+  { unfold has_nul in H. induction s as [|b s IH]; [reflexivity|]. cbn in H. apply orb_false_iff in H as [H1 H2].
+    cbn [forallb]. now rewrite (ascii_no_nul b H1), IH. }
+  rewrite E. destruct (Nat.ltb 63 (length s)) eqn:L.
+  - apply Nat.ltb_lt in L. assert (E1 : Nat.leb (length s) 63 = false) by (apply Nat.leb_gt; lia). now rewrite E1.
+  - apply Nat.ltb_ge in L. assert (E1 : Nat.leb (length s) 63 = true) by (apply Nat.leb_le; lia). now rewrite E1.
+Qed.
+
+(* both variants decide the same sets, except: the hand-written one accepts a unit with an embedded NUL (the regex class
+   is [\x01-\x7F]) and reads name[0] of an empty name *)
+Lemma variants_agree_lemma : forall s,
+  (s <> [] -> validate_name_nr s = Some (validate_name s)) /\ (has_nul s = false -> validate_unit_nr s = validate_unit s).
+Proof.
+  intros s. split; intros H.
+  - rewrite validate_name_spec. now apply validate_name_nr_spec.
+  - rewrite validate_unit_spec. now apply validate_unit_nr_spec.
+Qed.
+Lemma variants_differ_on_nul : validate_unit [x6d; x00] = false /\ validate_unit_nr [x6d; x00] = true.
+Proof. vm_compute. auto. Qed.
+
 (* non-vacuity: a longest valid name, a shortest invalid one; an embedded NUL is rejected (F17 repaired) *)
 Example name_255_valid : validate_name (x61 :: repeat x2f 254) = true.
 Proof. vm_compute. reflexivity. Qed.
